@@ -298,3 +298,54 @@ func VC01TimeLayout() {
 	}
 	vMatch("$", v, root)
 }
+
+// Layouts that print the zone abbreviation: the location's name is caller-controlled text that ends up
+// inside the JSON string.
+//
+//verif: prop=C01,C02 bounds="layout-based time encoder with a layout that prints the zone abbreviation (RFC1123, RFC822, UnixDate, bare MST) x a FixedZone whose name is 2 symbolic bytes, for the entry time (concrete or symbolic instant) and a time field: the line stays one valid JSON object and the zone name decodes back byte for byte"
+func VC01TimeZoneName() {
+	layout := []string{time.RFC1123, time.RFC822, time.UnixDate, "MST"}[vrt.Choice("layout", 4)]
+	zone := vrt.String("zone", 2)
+	loc := time.FixedZone(zone, 3600)
+	sec := int64(5)
+	if vrt.Choice("instant", 2) == 1 {
+		sec = vrt.Int64("sec")
+		vrt.Assume(sec > 0 && sec < 4000000000)
+	}
+	cfg := EncoderConfig{TimeKey: "T", MessageKey: "M", EncodeTime: TimeEncoderOfLayout(layout)}
+	ent := Entry{Level: InfoLevel, Message: "m", Time: time.Unix(sec, 0).In(loc)}
+	enc := NewJSONEncoder(cfg)
+	buf, err := enc.EncodeEntry(ent, []Field{{Key: "when", Type: TimeType, Integer: 7, Interface: loc}})
+	vrt.Assert("encode-returns-nil", err == nil)
+	out := buf.Bytes()
+	vrt.Observe("line", out)
+	v, perr := vrt.ParseJSONObjectLine(out, "\n", false)
+	if perr != "" {
+		vrt.Tag("parse=" + perr)
+		vrt.Fail("one-valid-json-object-then-line-ending")
+		return
+	}
+	for _, c := range out[:len(out)-1] {
+		vrt.Assert("no-raw-control-byte", c >= 0x20)
+	}
+	// the decoded strings contain the zone name (with invalid UTF-8 replaced, as everywhere in the encoder)
+	want := vrt.ReplaceInvalidUTF8([]byte(zone))
+	for _, k := range []string{"T", "when"} {
+		m := v.Get(k)
+		if m == nil || m.Kind != vrt.JStr {
+			vrt.Fail("time-member-is-a-string")
+			return
+		}
+		vrt.Assert("zone-name-recoverable", vContainsBytes(m.Str, want))
+	}
+	vrt.Cover("done")
+}
+
+func vContainsBytes(hay, needle []byte) bool {
+	for i := 0; i+len(needle) <= len(hay); i++ {
+		if string(hay[i:i+len(needle)]) == string(needle) {
+			return true
+		}
+	}
+	return false
+}
